@@ -87,6 +87,13 @@ def parseTreeAuth (s : String) : Option Auth :=
         else match parseAddr t with | some a => some (.list (a :: xs)) | none => none
       | some .all => some .all) (some (.list []))
 
+/-- upgrade to the same code + the migration, with the authorisers `auths`, run through `Cgp.GasService.step` -/
+def upgradeMigrate (s : GsS) (st : State) (auths : List Addr) : GsS × StepOut :=
+  match GasService.step H st (.upgradeMigrate auths) with
+  | (_, .error .unauthorized) => (s, ⟨"err", "unauthorized"⟩)
+  | (_, .error e) => (s, ⟨"err", errName e⟩)
+  | (st', .ok _) => ({ s with st := some st', bank := st'.bank }, ⟨"ok", "ok"⟩)
+
 def step (s : GsS) (t : List String) (implObs : String) : GsS × StepOut :=
   match sacStep (curBank s) t implObs with
   | some (b, o) => (withBank s b, o)
@@ -127,10 +134,10 @@ def step (s : GsS) (t : List String) (implObs : String) : GsS × StepOut :=
         | some n, some au => finish s (transferOwnership st (au.toList [st.owner]) n)
         | _, _ => bad s op
       | "gs.upgrade_migrate", [auth] =>
-        -- upgrade to the same code + migration of the current tree: owner only, and the identity on everything modelled
-        if auth = "@" then (s, ⟨"ok", "ok"⟩) else
+        -- upgrade to the same code + migration of the current tree: the model's `.upgradeMigrate`
+        if auth = "@" then upgradeMigrate s st [st.owner] else
         match parseTreeAuth auth with
-        | some au => if st.owner ∈ au.toList [st.owner] then (s, ⟨"ok", "ok"⟩) else (s, ⟨"err", "unauthorized"⟩)
+        | some au => upgradeMigrate s st (au.toList [st.owner])
         | none => bad s op
       | "gs.owner", [] => (s, ⟨"ok " ++ addrTok st.owner, "ok"⟩)
       | "gs.collector", [] => (s, ⟨"ok " ++ addrTok st.collector, "ok"⟩)
